@@ -317,6 +317,23 @@ pub fn run_bulk(ctx: &Ctx, rep: &mut Report, prop: &str, case_seed: u64, variant
 				format!("value iteration yields {} entries, the model holds {} live keys", n, live),
 			))
 		}
+		if !rc {
+			// the files after the migration(s): every live value reachable through the index, every
+			// other slot free, nothing left behind by the old index tables (pvfsck, C14)
+			let mut expect = vec![pvfsck::Expect::Hash(b.expect.iter().filter_map(|(k, v)| v.as_ref().map(|v| (d.verif_hash_key(0, k), v.clone(), 1u32))).collect())];
+			if two {
+				expect.push(pvfsck::Expect::Hash(b.expect1.iter().map(|(k, v)| (d.verif_hash_key(1, k), v.clone(), 1u32)).collect()));
+			}
+			let specs: Vec<pvfsck::ColSpec> = cfg.cols.iter().map(crate::fsck_glue::col_spec).collect();
+			drop(d);
+			let r = pvfsck::check_dir(&dir.path.join("db"), &specs, &expect);
+			rep.count("fsck_runs", 1);
+			rep.evaluations += 1 + r.stats.get("values_compared").copied().unwrap_or(0);
+			if let Some(e) = r.errors.first() {
+				let class = e.split(':').next().unwrap_or("unknown").to_string();
+				return Err((format!("failure=fsck;class={};phase=bulk", class), format!("structural check after the index migration: {} problem(s): {}", r.errors.len(), r.errors.iter().take(4).cloned().collect::<Vec<_>>().join(" | "))))
+			}
+		}
 		rep.count("bulk_cases", 1);
 		rep.count("bulk_keys", b.expect.len() as u64);
 		if batches >= 2 {
